@@ -9,6 +9,7 @@ package main
 
 import (
 	"context"
+	"encoding/binary"
 	"fmt"
 	"os"
 	"sync"
@@ -56,6 +57,74 @@ func readMany(ctx context.Context, c *opcua.Client, ids []*ua.NodeID) ([]int64, 
 		out[i] = v
 	}
 	return out, nil
+}
+
+// ---- blob mode: values are ByteStrings larger than one chunk (so requests and responses are multi-chunk); a blob
+// carries one unique id repeated in every 8-byte word, so that a value assembled from two writes is recognisable
+
+const blobLen = 80 * 1024
+
+func makeBlob(id int64) []byte {
+	b := make([]byte, blobLen)
+	for i := 0; i < blobLen; i += 8 {
+		binary.LittleEndian.PutUint64(b[i:], uint64(id))
+	}
+	return b
+}
+
+var corruptCtr atomic.Int64
+
+// blobID returns the id a blob carries; a blob whose words disagree (or of the wrong length) gets a fresh negative id,
+// i.e. a value nobody ever wrote.
+func blobID(v interface{}) int64 {
+	switch b := v.(type) {
+	case nil:
+		return 0
+	case int64:
+		return b
+	case []byte:
+		if len(b) == 0 {
+			return 0
+		}
+		if len(b) != blobLen {
+			return -1_000_000_000 - corruptCtr.Add(1)
+		}
+		id := int64(binary.LittleEndian.Uint64(b))
+		for i := 8; i < blobLen; i += 8 {
+			if int64(binary.LittleEndian.Uint64(b[i:])) != id {
+				return -1_000_000_000 - corruptCtr.Add(1)
+			}
+		}
+		return id
+	}
+	return -1_000_000_000 - corruptCtr.Add(1)
+}
+
+func readBlob(ctx context.Context, c *opcua.Client, n *ua.NodeID) (int64, error) {
+	resp, err := c.Read(ctx, &ua.ReadRequest{NodesToRead: []*ua.ReadValueID{{NodeID: n, AttributeID: ua.AttributeIDValue}},
+		TimestampsToReturn: ua.TimestampsToReturnNeither})
+	if err != nil {
+		return 0, err
+	}
+	if len(resp.Results) != 1 || resp.Results[0].Status != ua.StatusOK {
+		return 0, fmt.Errorf("read blob: bad result")
+	}
+	if resp.Results[0].Value == nil {
+		return 0, nil
+	}
+	return blobID(resp.Results[0].Value.Value()), nil
+}
+
+func writeBlob(ctx context.Context, c *opcua.Client, n *ua.NodeID, id int64) error {
+	resp, err := c.Write(ctx, &ua.WriteRequest{NodesToWrite: []*ua.WriteValue{{NodeID: n, AttributeID: ua.AttributeIDValue,
+		Value: &ua.DataValue{EncodingMask: ua.DataValueValue, Value: ua.MustVariant(makeBlob(id))}}}})
+	if err != nil {
+		return err
+	}
+	if len(resp.Results) != 1 || resp.Results[0] != ua.StatusOK {
+		return fmt.Errorf("write blob: status %v", resp.Results)
+	}
+	return nil
 }
 
 func writeMany(ctx context.Context, c *opcua.Client, ids []*ua.NodeID, v int64) error {
@@ -135,7 +204,12 @@ func c34run(run int, mode string, seed uint64, nclients, opsPerWorker, nnodes in
 						v := int64(wid+1)*1_000_000 + ctr
 						o.Op = "w"
 						o.Inv = int64(time.Since(t0))
-						err := writeMany(ctx, c, ids, v)
+						var err error
+						if mode == "blob" {
+							err = writeBlob(ctx, c, ids[0], v)
+						} else {
+							err = writeMany(ctx, c, ids, v)
+						}
 						o.Res = int64(time.Since(t0))
 						if err != nil {
 							failed.Add(1)
@@ -147,7 +221,15 @@ func c34run(run int, mode string, seed uint64, nclients, opsPerWorker, nnodes in
 					} else {
 						o.Op = "r"
 						o.Inv = int64(time.Since(t0))
-						vs, err := readMany(ctx, c, ids)
+						var vs []int64
+						var err error
+						if mode == "blob" {
+							var v int64
+							v, err = readBlob(ctx, c, ids[0])
+							vs = []int64{v}
+						} else {
+							vs, err = readMany(ctx, c, ids)
+						}
 						o.Res = int64(time.Since(t0))
 						if err != nil {
 							failed.Add(1)
@@ -183,11 +265,13 @@ func c34(seed uint64, runs, opsPerWorker int) {
 	r := rng.New(seed)
 	for i := 0; i < runs; i++ {
 		mode := "single"
-		nn := 3
+		nn, ops := 3, opsPerWorker
 		if i%3 == 2 {
 			mode, nn = "group", 4
+		} else if i%3 == 1 {
+			mode, ops = "blob", opsPerWorker/3+4 // 80 KiB values: every request or response spans two chunks
 		}
-		if err := c34run(i, mode, r.U64(), 4, opsPerWorker, nn); err != nil {
+		if err := c34run(i, mode, r.U64(), 4, ops, nn); err != nil {
 			emit(map[string]interface{}{"kind": "c34err", "run": i, "err": err.Error()})
 		}
 	}
